@@ -13,7 +13,7 @@ from props import PROPS
 
 def main():
     mods = sorted({m for p in PROPS.values() for m in p["theorems"]})
-    rc, out = check.run(["lake", "build", "MlaModel", "Driver", "driver", "cryptotest"] + mods, cwd=check.LEAN)
+    rc, out = check.run(["lake", "build", "MlaModel", "Driver", "driver", "cryptotest", "MlaModel.Theorems.All"] + mods, cwd=check.LEAN)
     print(out[-2000:])
     if rc != 0:
         sys.exit(1)
